@@ -93,3 +93,8 @@ chk("C11", "exploration",
     "the race detector only speaks about executed schedules; GOMAXPROCS <= 16; evidence counts distinct arrival orders actually observed",
     "Go race detector on the real binary + output-equality monitor across schedules + report-stream permutation monitor",
     "DESIGN.md §3 C11")
+chk("C16", "exploration",
+    "the real pint binary lints generated rule sets against an engine-backed fake Prometheus API whose database assigns each metric a presence class (present, never, other label values, disappeared 3 h ago, intermittent, appeared 20 s ago); promql/series problems are read from the H1 dump, the selector a problem points into is recovered from the diagnostic's column range, and (1) no 'missing' problem may point into a selector whose direct instant evaluation on the same database returns series, (2) a never-present metric that no recording rule produces and nothing exempts must draw a Bug.",
+    "data edges are hours (or, for the fresh series, 20 s) away from 'now' and extend past it, so the wall clock cannot flip a verdict on the unchanged tree; completeness only for expressions without fallbacks/absent/vector/ALERTS",
+    "differential monitor: pint child process vs direct evaluation by the real PromQL engine on the same in-memory database",
+    "DESIGN.md §3 C16")
